@@ -419,6 +419,31 @@ def r08f(ctx):
                        f"Table.traverse does not bound the rows it yields by `{k}` with a strict comparison on the position counter: a ranged read returns other rows than those addressed")
 
 
+def r08g(ctx):
+    """A read that expands repetitions hands out cells without a repeat count — whichever way it got them.
+
+    The expanding traversals clear `number-columns-repeated` on every copy they yield (R08c).  `get_cell` is a different kind of read: by
+    default (`keep_repeated=True`) its copy keeps the count of the run it was cut from.  An area getter that takes a short cut through
+    get_cell for a one-cell range therefore returns a cell that claims N columns; pushed back with set_cell it overwrites its neighbours.
+    Rule: inside the plural readers of Row and Table (`get_cells`, `get_values`, `get_sub_elements`, `iter_values`, `get_column_cells` is
+    excluded: it is documented cell by cell), a cell obtained through `get_cell(...)` is asked for with `keep_repeated=False`.
+    """
+    repo = ctx.repo
+    ctx.rule("R08g", "plural readers take cells from the expanding traversal, or from get_cell(keep_repeated=False)", floor=4)
+    for cname in ("Row", "Table"):
+        c = repo.cls(cname)
+        for name in ("get_cells", "get_values", "get_sub_elements", "iter_values", "get_row_values", "get_row_sub_elements"):
+            for f in c.methods.get(name, [])[:1]:
+                calls = [x for x in walk_no_nested(f.node) if isinstance(x, ast.Call) and call_name(x) in ("get_cell", "_get_cell")]
+                bad = [x for x in calls if not any(k.arg == "keep_repeated" and isinstance(k.value, ast.Constant) and k.value.value is False for k in x.keywords)]
+                ctx.instance("R08g", f"{f.file}:{f.ident}", f"{len(calls)} single-cell read(s) inside the plural reader, all un-repeated" if not bad else "a single-cell read keeps the repeat count",
+                             ok=not bad, nontrivial=bool(calls), line=f.node.lineno)
+                for x in bad[:1]:
+                    ctx.report("R08g", f, x, norm(x, 60),
+                               f"{cname}.{name} expands repetitions but takes a cell through `{norm(x, 40)}`, whose copy keeps `number-columns-repeated` of the run it was cut from: "
+                               f"the returned cell claims N columns, and writing it back overwrites the cells to its right")
+
+
 def run(ctx):
     tom = run_tom(ctx.repo)
     r08ab(ctx, tom)
@@ -426,6 +451,10 @@ def run(ctx):
     r08d(ctx)
     r08e(ctx)
     r08f(ctx)
+    r08g(ctx)
+    # a read by position finds its row through the position map and the indexed query: both must follow the scheme the traversals use (shared with C02)
+    from .c02 import r02d
+    r02d(ctx)
     # a getter that resolves a coordinate per row returns cells of other columns, stamped with other coordinates (rule shared with C19)
     from .c19 import r19g
     r19g(ctx)
@@ -436,6 +465,10 @@ from ..selftest import Seed, unparse_seed  # noqa: E402
 _T = "src/odfdo/table.py"
 _R = "src/odfdo/row.py"
 SEEDS = [
+    Seed("Row.get_cells takes a one-position range through get_cell", "fault", _R,
+         "        cells: list[Cell] = []\n        for cell in self.traverse(start=x, end=z):", "        cells: list[Cell] = []\n        found = [self.get_cell(x)] if x is not None and x == z and x < self.width else self.traverse(start=x, end=z)\n        for cell in found:", "R08g"),
+    Seed("Row.get_cells takes a one-position range through an un-repeated get_cell", "neutral", _R,
+         "        cells: list[Cell] = []\n        for cell in self.traverse(start=x, end=z):", "        cells: list[Cell] = []\n        found = [self.get_cell(x, keep_repeated=False)] if x is not None and x == z and x < self.width else self.traverse(start=x, end=z)\n        for cell in found:"),
     Seed("ranged column traversal does not rebase `before` on the start", "fault", _T,
          "            idx = start_map - 1\n            before = start - 1\n            x = start\n            for juska in self._cmap[start_map:]:",
          "            idx = start_map - 1\n            x = start\n            for juska in self._cmap[start_map:]:", "R08c"),
